@@ -9,6 +9,11 @@ inductive Kind where
   | I | J | K | L | M | N
   deriving DecidableEq, Repr, Inhabited
 
+/-- The five backing stores of `Bus` (src/bus.rs). -/
+inductive StoreId where
+  | vector | dram | ram | io1 | io2
+  deriving DecidableEq, Repr, Inhabited
+
 /-- Encoding of a Rust `Result<uN>` / `Result<bool>` as `BitVec (N+1)`: the top bit is the
     error flag (all errors are identified).  `bv_decide` sees through this encoding, which it
     cannot do for `Option`/`Except`. -/
